@@ -200,9 +200,9 @@ plan("C16", "exploration",
      "at the recipient's id and at no other participant's id.",
      q, t, real_vs_stub=REAL_W2)
 q, t = tiers(200, 60, 10000, 1200)
-q["layers"] = [dict(runs=200, budget_s=60, params="")] * 15 + [dict(runs=12, budget_s=60, params="mode=free")] + native([dict(runs=12, budget_s=60, params="mode=free")])
-t["layers"] = [dict(runs=10000, budget_s=1200, params="")] * 15 + [dict(runs=1500, budget_s=1200, params="mode=free")] + native([dict(runs=1500, budget_s=1200, params="mode=free")])
-q["require_probes"] = t["require_probes"] = ["life_commit_ok", "life_abort", "life_clock_advances", "life_execute_ok", "free_simultaneous_prepares"]
+q["layers"] = [dict(runs=200, budget_s=60, params="")] * 15 + [dict(runs=12, budget_s=60, params="mode=free")] + native([dict(runs=12, budget_s=60, params="mode=free")]) + native([dict(runs=12, budget_s=60, params="mode=daemon")])
+t["layers"] = [dict(runs=10000, budget_s=1200, params="")] * 15 + [dict(runs=1500, budget_s=1200, params="mode=free")] + native([dict(runs=1500, budget_s=1200, params="mode=free")]) + native([dict(runs=400, budget_s=1200, params="mode=daemon")])
+q["require_probes"] = t["require_probes"] = ["life_commit_ok", "life_abort", "life_clock_advances", "life_execute_ok", "free_simultaneous_prepares", "daemon_generations_expired_as_configured"]
 plan("C17", "exploration",
      "one case = one seeded sequence of 8-31 events {prepare, execute, commit, abort on a drawn instance for one of 1-3 account names; clock advance: a third of the timeout / exactly "
      "onto, 1 ns short of, 1 ns past the expiry of a session / well past it} on a 3-instance cluster with generation timeout drawn from {1 ms, 1 s, 70 s, 10 min}, biased towards the "
@@ -243,9 +243,9 @@ plan("C19", "other",
      assumptions=["Go crypto/tls and x509 verification are trusted", "the host trust store is pointed (SSL_CERT_FILE) at a generated foreign authority to cover servers that fall back to system roots"])
 
 q, t = tiers(150, 90, 6000, 1500)
-q["layers"] = [dict(runs=150, budget_s=90, params="")] * 7 + native([dict(runs=150, budget_s=90, params="")] * 7) + [dict(runs=70, budget_s=90, params="mode=free")] + native([dict(runs=70, budget_s=90, params="mode=free")])
-t["layers"] = [dict(runs=6000, budget_s=1500, params="")] * 7 + native([dict(runs=6000, budget_s=1500, params="")] * 7) + [dict(runs=2000, budget_s=1500, params="mode=free")] + native([dict(runs=2000, budget_s=1500, params="mode=free")])
-q["require_probes"] = t["require_probes"] = ["canaries_served", "requests", "free_running_volleys"]
+q["layers"] = [dict(runs=150, budget_s=90, params="")] * 7 + native([dict(runs=150, budget_s=90, params="")] * 6) + native([dict(runs=150, budget_s=90, params="mode=daemon")] * 2) + [dict(runs=70, budget_s=90, params="mode=free")] + native([dict(runs=70, budget_s=90, params="mode=free")])
+t["layers"] = [dict(runs=6000, budget_s=1500, params="")] * 7 + native([dict(runs=6000, budget_s=1500, params="")] * 6) + native([dict(runs=6000, budget_s=1500, params="mode=daemon")] * 2) + [dict(runs=2000, budget_s=1500, params="mode=free")] + native([dict(runs=2000, budget_s=1500, params="mode=free")])
+q["require_probes"] = t["require_probes"] = ["canaries_served", "requests", "free_running_volleys", "daemon_wire_requests"]
 plan("C20", "exploration",
      "one case = one generated request: structure-aware generation per RPC of Lister, Signer (5), AccountManager (3), WalletManager (2) and the five key-generation messages (from non-peers and "
      "a peer), byte fields of length {0,1,3,4,31,32,33,47,48,49,96,4096} or absent, domains with a valid type prefix but wrong length, absent sub-messages and identifiers, extreme integers, "
@@ -298,9 +298,9 @@ REAL_W3 = ("REAL: the dirk binary built from the working tree (-tags verif), run
            "between them a real handler-to-badger stack opened in the worker process on the same directory for signing and probing. No bubble, no scheduler: steps are sequential processes. "
            "Faults: self-kill of the import at a drawn storage point (VERIF_HOOK_KILL_AT); the N-th storage operation of the importing process fails (VERIF_HOOK_FAIL_AT).")
 q, t = tiers(60, 120, 2500, 1500)
-q["layers"] = [dict(runs=60, budget_s=120, params="")] * 8 + native([dict(runs=60, budget_s=120, params="")] * 8) + native([dict(runs=3, budget_s=120, params="mode=bulk")])
-t["layers"] = [dict(runs=2500, budget_s=1500, params="")] * 8 + native([dict(runs=2500, budget_s=1500, params="")] * 8) + native([dict(runs=60, budget_s=1500, params="mode=bulk")])
-q["require_probes"] = t["require_probes"] = ["bulk_imports", "imports_succeeded", "imports_rejected", "imports_with_wrong_metadata", "fault_import_killed_at_storage_point", "fault_import_storage_operation_failed", "probes"]
+q["layers"] = [dict(runs=60, budget_s=120, params="")] * 8 + native([dict(runs=60, budget_s=120, params="")] * 8) + native([dict(runs=3, budget_s=120, params="mode=bulk")]) + native([dict(runs=20, budget_s=120, params="mode=daemon")])
+t["layers"] = [dict(runs=2500, budget_s=1500, params="")] * 8 + native([dict(runs=2500, budget_s=1500, params="")] * 8) + native([dict(runs=60, budget_s=1500, params="mode=bulk")]) + native([dict(runs=800, budget_s=1500, params="mode=daemon")])
+q["require_probes"] = t["require_probes"] = ["bulk_imports", "daemon_cli_imports", "imports_succeeded", "imports_rejected", "imports_with_wrong_metadata", "fault_import_killed_at_storage_point", "fault_import_storage_operation_failed", "probes"]
 plan("C10", "exploration",
      "one case = one seeded history: 1-4 keys with drawn prior signing history (through the real signer), then 1-3 imports of generated interchange files (1-5 data entries, repeated keys, 0-2 blocks "
      "and attestations per entry with values around the protected ones - newer in one field, older in another -, unprefixed / upper-case / non-hex keys, malformed numbers, wrong version, wrong "
@@ -309,9 +309,9 @@ plan("C10", "exploration",
      "key's own history and every value of every successfully imported file; a restarted instance refuses proposals at, and attestations at or below, those values.",
      q, t, real_vs_stub=REAL_W3, needs_dirk=True)
 q, t = tiers(60, 120, 2500, 1500)
-q["layers"] = [dict(runs=60, budget_s=120, params="")] * 8 + native([dict(runs=60, budget_s=120, params="")] * 8)
-t["layers"] = [dict(runs=2500, budget_s=1500, params="")] * 8 + native([dict(runs=2500, budget_s=1500, params="")] * 8)
-q["require_probes"] = t["require_probes"] = ["legacy_format_runs", "probes"]
+q["layers"] = [dict(runs=60, budget_s=120, params="")] * 8 + native([dict(runs=60, budget_s=120, params="")] * 8) + native([dict(runs=20, budget_s=120, params="mode=daemon")])
+t["layers"] = [dict(runs=2500, budget_s=1500, params="")] * 8 + native([dict(runs=2500, budget_s=1500, params="")] * 8) + native([dict(runs=800, budget_s=1500, params="mode=daemon")])
+q["require_probes"] = t["require_probes"] = ["legacy_format_runs", "probes", "daemon_cli_exports"]
 plan("C11", "exploration",
      "one case = one seeded history over 1-4 keys: optionally a store pre-populated with old-format (gob) attestation and proposal records of drawn values incl. zeros, then 0-15 well-formed "
      "single / batched attestation and proposal requests; distinct = distinct history; non-trivial = all. Oracle: every verdict agrees with the reference model started from the stored records; "
@@ -320,7 +320,7 @@ plan("C11", "exploration",
      q, t, real_vs_stub=REAL_W3, needs_dirk=True)
 
 # W7 (the dirk binary as a daemon process) needs the binary built from the tree under test.
-for _p in ("C01", "C02", "C03", "C05", "C07", "C18", "C19"):
+for _p in ("C01", "C02", "C03", "C05", "C07", "C17", "C18", "C19", "C20"):
     PLANS[_p]["needs_dirk"] = True
 # Before the repair of main.go the order of a client's entries followed Go's map iteration: a replay may need several starts of the daemon.
 PLANS["C07"]["replay_attempts"] = 12
